@@ -22,6 +22,10 @@ type Origin struct {
 	// Handler returns the action for the req-th request on connection conn. perr is non-nil when the bytes
 	// received are not a well-formed request for the origin's parser (req is then nil) .
 	Handler func(conn, idx int, req *RawRequest, perr error) Action
+	// Early (optional) is consulted once a request head is parsed; a non-nil action is performed at once, the
+	// request body is never read and the connection is then held open, unread, until the origin stops (an
+	// origin that answers early and does not care about the rest of the request).
+	Early func(conn, idx int, head *RawRequest) *Action
 	// Continue100: answer "Expect: 100-continue" with an interim 100 response once the head is read.
 	Continue100 bool
 
@@ -36,6 +40,7 @@ type Origin struct {
 	conns     []net.Conn
 	sent100   int
 	stopping  bool
+	stop      chan struct{}
 }
 
 type teeReader struct {
@@ -60,6 +65,7 @@ func (t *teeReader) Read(p []byte) (int, error) {
 func (o *Origin) Start(l net.Listener) {
 	o.l = l
 	o.raw = map[int][]byte{}
+	o.stop = make(chan struct{})
 	o.wg.Add(1)
 	go func() {
 		defer o.wg.Done()
@@ -88,9 +94,15 @@ func (o *Origin) serve(idx int, c net.Conn) {
 	defer c.Close()
 	br := bufio.NewReaderSize(&teeReader{r: c, o: o, conn: idx}, 4096)
 	for n := 0; ; n++ {
-		req, err := ReadRawRequest(br, func(r *RawRequest) {
+		var early *Action
+		req, err := ReadRawRequest(br, func(r *RawRequest) bool {
+			if o.Early != nil {
+				if early = o.Early(idx, n, r); early != nil {
+					return true
+				}
+			}
 			if !o.Continue100 {
-				return
+				return false
 			}
 			for _, v := range r.Get("Expect") {
 				if strings.EqualFold(v, "100-continue") {
@@ -100,8 +112,24 @@ func (o *Origin) serve(idx int, c net.Conn) {
 					o.mu.Unlock()
 				}
 			}
+			return false
 		})
 		if err == io.EOF {
+			return
+		}
+		if err == ErrStoppedAfterHead {
+			req.Conn = idx
+			o.mu.Lock()
+			o.log = append(o.log, req)
+			o.mu.Unlock()
+			for _, seg := range early.Write {
+				if _, werr := c.Write(seg); werr != nil {
+					return
+				}
+			}
+			if !early.Close {
+				<-o.stop
+			}
 			return
 		}
 		if req != nil {
@@ -138,6 +166,7 @@ func (o *Origin) Stop() {
 	o.l.Close()
 	o.mu.Lock()
 	o.stopping = true
+	close(o.stop)
 	cs := append([]net.Conn(nil), o.conns...)
 	o.mu.Unlock()
 	for _, c := range cs {
